@@ -189,8 +189,13 @@ class State(Sized):
         self.npid = self.npid + num_new_particles
 
         # Concatenate the rest of the variables
+        # Given values (and defaults) take the type of the variable, as in __setitem__
+        # (integer flags from a release file must not turn alive and active into integers)
         for var in state_vars:
-            self.variables[var] = np.concatenate((self.variables[var], values[var]))
+            new_values = values[var]
+            if var in args or var in self.default_values:
+                new_values = np.asarray(new_values, dtype=self.dtypes[var])
+            self.variables[var] = np.concatenate((self.variables[var], new_values))
 
         logger.debug("Total number of particles = %d", len(self))
 
